@@ -280,6 +280,9 @@ def run(tier, seed):
                for seq in ([sym], [one, (1.0, 1.0, 1.25, 1.0)], [(1.0, 1.0, 1.25, 1.0), one], [sym, one, sym], [one, one])]
     uouts = report.pool().map(apply_uf_case, ufcases, chunksize=1)
     un, ufails = sum(o[1] for o in uouts), [dict(case=dict(k=o[0][0], m=o[0][1], calls=str(o[0][2])), **f) for o in uouts for f in o[2]]
+    for f_ in [x for x in ufails if x.get("undecided")]:
+        run.undecided.append("apply_uf %s %s: %s" % (f_["case"], f_["quantity"], f_.get("detail")))
+    ufails = [x for x in ufails if not x.get("undecided")]
     run.bounded.append(dict(name="real apply_uf on a symbolic 4-mode solution [1 rigid, 2 elastic, 1 residual-flexibility] x 2 samples, shared cache, several "
                                  "call orders incl. unit factors: documented scaling table, d = d_static + d_dynamic, inputs untouched",
                             scope="k/b (and m) diagonal or full in the elastic block, m None or given; symbolic values and factors", evaluations=un,
@@ -390,8 +393,8 @@ def apply_uf_case(args):
                     for j in range(nt):
                         nchk += 1
                         st, det = alg.prove_zero(alg.expr_of(got[i, j]) - want[i, j], numeric_only=True)
-                        if st == "failed":
-                            fails.append(dict(call=str(uf), quantity="%s[%d,%d]" % (nm, i, j), detail=det))
+                        if st in ("failed", "undecided"):
+                            fails.append(dict(call=str(uf), quantity="%s[%d,%d]" % (nm, i, j), detail=det, undecided=(st == "undecided")))
             for i in range(n):
                 for j in range(nt):
                     nchk += 1
